@@ -217,6 +217,7 @@ def generate(seed, batch):
         scen['ktscale'] = rng.choice([[1.0], [1.0], [rng.uniform(0.3, 3.0)], [1.0, 100.0, 0.3],
                                       [1.0, 1.0, 0.0] if rng.random() < 0.2 else [1.0]])
         scen['faults'] = gen_faults(rng, 0.12)
+        scen['repeat'] = rng.random() < 0.15
     elif batch == 'P':
         knobs = gen_knobs(rng, rng.random() < 0.4)
         n = rng.randint(1, 5)
@@ -233,6 +234,7 @@ def generate(seed, batch):
             scen['tangent']['mode'] = rng.choice(['exact', 'stale'])
             scen['struct']['nan_radius'] = None
         scen['faults'] = gen_faults(rng, 0.05)
+        scen['repeat'] = rng.random() < 0.15
     elif batch == 'R':
         knobs = gen_knobs(rng, False)
         knobs['minInc'] = max(knobs['minInc'], 0.01)
@@ -247,6 +249,7 @@ def generate(seed, batch):
                           'm1': rng.randint(3, 6), 'm2': rng.randint(2, 3), 'n2': rng.randint(2, 3),
                           'cores': rng.randint(1, 4)})
         scen['faults'] = []
+        scen['repeat'] = rng.random() < 0.3
     else:
         raise ValueError(batch)
     return scen
@@ -256,6 +259,10 @@ def generate(seed, batch):
 
 def shrink_candidates(scen):
     import copy
+    if scen.get('repeat'):
+        c = copy.deepcopy(scen)
+        c['repeat'] = False
+        yield c
     # 1. drop faults
     if scen.get('faults'):
         c = copy.deepcopy(scen)
@@ -362,6 +369,16 @@ class Monitor(object):
         self.pure = None          # (fext, fint) pure callables for worlds P/R
         self.violation = None
         self.submin = 0
+
+    def begin_run(self):
+        """a new analysis starts on the same Analysis object: forget the reports of the previous one"""
+        self.nrep = 0
+        self.rep_sha = []
+        self.rep_event = []
+        self.attempts = []
+        self.cur = None
+        self.submin = 0
+        self.ledger.append((self.event, 'new-run', None, None, None))
 
     # --- bookkeeping
     def on_line(self, code, line):
@@ -862,11 +879,17 @@ def execute(scen):
     try:
         try:
             with np.errstate(all='ignore'):
-                if world == 'R':
-                    # Panel.static/ConeCyl.static overwrite some knobs; drive the Analysis directly
-                    an.static(NLgeom=True, silent=True)
-                else:
-                    an.static(NLgeom=True, silent=True)
+                an.static(NLgeom=True, silent=True)
+                if scen.get('repeat'):
+                    # a second analysis on the same Analysis object: what it reports must again be a fresh,
+                    # ordered list of equilibrated states (nothing left over from the first run)
+                    first_exit = mon.final_checks(None)
+                    mon.begin_run()
+                    bump(res['probes'], 'second_run_on_same_analysis_object')
+                    if world == 'R' and hasattr(obj, 'static'):
+                        obj.static(NLgeom=True, silent=True)
+                    else:
+                        an.static(NLgeom=True, silent=True)
         except Violation:
             raise
         except _Budget as e:
